@@ -59,6 +59,18 @@ macro_rules! flags {
 /// formatting is a repeated long division).
 pub fn matrix<T: Display + Binary + Octal + LowerHex + UpperHex>(v: &T, w: usize, dec_all: bool) -> Vec<(&'static str, String)> {
     let mut out: Vec<(&'static str, String)> = Vec::with_capacity(560);
+    if w >= usize::MAX - 1 {
+        // minimal set for very long vectors (decimal is a repeated long division in bva, so it
+        // can be left out: w == usize::MAX - 1)
+        if w == usize::MAX {
+            out.push(("{}", format!("{}", v)));
+        }
+        out.push(("{:b}", format!("{:b}", v)));
+        out.push(("{:o}", format!("{:o}", v)));
+        out.push(("{:x}", format!("{:x}", v)));
+        out.push(("{:#X}", format!("{:#X}", v)));
+        return out;
+    }
     flags!(out, v, w, dec_all, "");
     flags!(out, v, w, dec_all, "<");
     flags!(out, v, w, dec_all, "^");
@@ -88,7 +100,7 @@ impl Property for C14 {
         "Cases: (vector of any zoo type/length/provenance, width argument). A fixed matrix of 560 literal format specifications ({}, {:b}, {:o}, {:x}, {:X} x flags {none,+,#,0,+#,#0,+0,+#0} x fill/alignment {none,<,^,>,*<,_^,0>} x {no width, runtime width}) is applied to the vector and to the oracle integer and compared string by string (for lengths above 128 bits decimal is limited to 4 specifications because bva formats decimal by repeated long division). Oracle: std u128 formatting up to 128 bits, num-bigint BigUint above; in the same run BigUint is compared with u128 on every <=128-bit case, so the wide oracle's flag handling is itself validated against std. Metamorphic: zero-extending the value and converting it to other implementations leaves every string unchanged. Widths: 0, digits-1, digits, digits+1, digits+3, 50. Enumerated: all values n<=10 (quick)/14 (thorough) on the 1- and 2-word types and Bvd/Bv; 2^k, 2^k-1 and 0 for every k<=min(C,320). Non-trivial: the value has fewer digits than the length suggests (leading zero digit groups), or is zero with n>0, or n=0, or exceeds 2^64. Distinct by hash of the case.".into()
     }
     fn random_cases(&self, tier: Tier) -> u64 {
-        tier.pick(40000, 300000)
+        tier.pick(40000, 1500000)
     }
     fn strategy(&self, tier: Tier) -> BoxedStrategy<C14Case> {
         (arb_operand(tier), 0usize..6, any::<bool>(), any::<u16>()).prop_map(|(mut a, wsel, shrink_val, f)| {
@@ -99,19 +111,18 @@ impl Property for C14 {
                     a.bits.0[i] = false;
                 }
             }
-            // decimal on very long vectors is slow in bva: keep routine lengths moderate
-            if a.len() > 400 {
-                a.bits.0.truncate(400);
-            }
+            // decimal on very long vectors is slow in bva: above 400 bits only the minimal
+            // specification set is used (width == usize::MAX selects it)
             let digits = (a.bits.significant().max(1) + 3) / 4;
-            let width = [0, digits.saturating_sub(1), digits, digits + 1, digits + 3, 50][wsel];
+            let width = if a.len() > 400 { usize::MAX } else { [0, digits.saturating_sub(1), digits, digits + 1, digits + 3, 50][wsel] };
             C14Case { a, width }
         }).boxed()
     }
     fn exhaustive_subspaces(&self, tier: Tier) -> Vec<String> {
         vec![
             format!("all values for n<={} on 8 representative types x width 0 and digits+3", tier.pick(10, 14)),
-            "values 0, 2^k, 2^k-1 for every k<=min(capacity,320) at full length on all 18 types".into(),
+            "values 0, 2^k, 2^k-1 for every k<=min(capacity,320) at full length on all 19 types".into(),
+            "decimal/binary/octal/hex of 2^k-1 and 2^(k-1) as k-bit Bvd and Bv for every k in 401..=1300".into(),
         ]
     }
     fn enumerate(&self, tier: Tier, sh: &mut Shard, f: &mut dyn FnMut(C14Case) -> bool) {
@@ -136,6 +147,30 @@ impl Property for C14 {
                 }
             }
         }
+        // long decimal: 2^k-1 (the largest k-bit value) and 2^(k-1) for every k up to 1300 on the
+        // unbounded types, minimal specification set
+        for t in [TID_D, TID_A] {
+            for kk in 401..=1300usize {
+                // quick: every k on Bvd, every 25th on Bv (which delegates to Bvd on the heap)
+                if t == TID_A && tier == Tier::Quick && kk % 25 != 0 {
+                    continue;
+                }
+                if !sh.mine() {
+                    continue;
+                }
+                let mut vals = vec![Bits::ones(kk)];
+                if kk % 10 == 0 || tier == Tier::Thorough {
+                    let mut hot = Bits::zeros(kk);
+                    hot.0[kk - 1] = true;
+                    vals.push(hot);
+                }
+                for a in vals {
+                    if !f(C14Case { a: Operand::canon(t, a), width: usize::MAX }) {
+                        return;
+                    }
+                }
+            }
+        }
         for t in 0..NT {
             let c = fixed_cap(t).unwrap_or(320);
             for kk in 0..=c {
@@ -150,7 +185,9 @@ impl Property for C14 {
                 }
                 for a in vals {
                     let digits = (a.significant().max(1) + 3) / 4;
-                    if !f(C14Case { a: Operand::canon(t, a), width: digits + 1 }) {
+                    // beyond 400 bits: minimal set; decimal only for every 16th k (60 ms per call at 1280 bits)
+                    let width = if a.len() > 400 { if kk % 16 == 0 { usize::MAX } else { usize::MAX - 1 } } else { digits + 1 };
+                    if !f(C14Case { a: Operand::canon(t, a), width }) {
                         return;
                     }
                 }
@@ -162,6 +199,9 @@ impl Property for C14 {
         let what = format!("format:{}", kind_of(a.ty));
         let za = build_checked(a, "subject")?;
         let n = a.len();
+        if n > 400 && *width < usize::MAX - 1 {
+            crate::fail!("bad-case", "vectors longer than 400 bits use the minimal specification set");
+        }
         let dec_all = n <= 128;
         let got = match catch(|| z_match!(&za, v => matrix(v, *width, dec_all))) {
             Ok(g) => g,
